@@ -143,3 +143,68 @@ claim(
     'decision-table extraction by partial evaluation over character classes '
     '+ cell-wise comparison with a reference table',
     'DESIGN.md §4 C08')
+
+claim(
+    'C07', 'other',
+    'Renderer contract decided statically on every iteration path of the two '
+    'explicit-stack emitters, Node.__str__, the dispatcher write_smtlib and '
+    'the checking writer: leaf text reaches the file verbatim (identity / '
+    'plain interpolation only, constants are brackets or white space); each '
+    'node is emitted exactly once and children are pushed completely and in '
+    'order (head written separately only under has_ident()); separator '
+    'protocol (needs-space flag consulted before and set after every token, '
+    'comments on a line of their own, a separator after every top-level '
+    'expression); rendered text is not post-processed (taint from renderer '
+    'output to file.write); separators and the comment terminator agree with '
+    'the reader table extracted for C08. With the reader table these imply '
+    'parse(render(t)) = t and equal token sequences across renderers by the '
+    'lemma argued in DESIGN.md - the lemma is argued, the contract is checked.',
+    'Partial: the lemma\'s premise for trees not produced by the reader '
+    '(empty leaves, leaves containing delimiters) is delegated to C15. '
+    'Trusted: CPython ast, /verif/sa path enumeration.',
+    'per-path emission abstraction (LP/RP/LEAF/WS/NL alphabet) + taint from '
+    'renderer output to sink + table agreement with the extracted reader',
+    'DESIGN.md §4 C07')
+
+claim(
+    'C06', 'other',
+    'Decided statically, for every write effect in the package classified by '
+    'path provenance (interprocedural over resolved call sites): the output '
+    'file is never opened/truncated in place - content goes to a sibling '
+    'temporary derived from the output path, written inside a with-block '
+    'that is closed before os.replace, and the rename post-dominates the '
+    'write on all normal paths and is not reachable from an exception '
+    'handler; no write effect has provenance "infile" (positive fixture '
+    're-checked on every run); KeyboardInterrupt is handled in main() and '
+    'swallowed nowhere below; the temporary directory is a '
+    'TemporaryDirectory held by a module global and all temporary paths are '
+    'built from its name; every adoption is followed by a write of the '
+    'adopted input. These are the conditions under which "every crash point" '
+    'needs no enumeration (rename is atomic, truncating open is not).',
+    'Not decided: SIGKILL vs temp dir; file-system rename semantics; power '
+    'loss (no fsync demanded). Trusted: atomicity of rename(2) within one '
+    'directory; CPython ast; provenance classification of /verif/sa.',
+    'effect inventory + path provenance (who-may-write), post-dominance '
+    '(must-backward) of the rename, handler coverage',
+    'DESIGN.md §4 C06')
+
+claim(
+    'C05', 'other',
+    'Structural facts from which "no stale adoption" follows given that a '
+    'pool delivers each result once, decided on every path of both '
+    'result-drain loops: latch typestate (adoption only with the latch '
+    'unset and under the success flag of the result being read; latch set on '
+    'the adoption path; cleared only outside the loop), fresh result '
+    'iterator per restart, rebinding of the task source to the adopted input '
+    '(TaskGenerator.update pickles the new input; stop before update; '
+    'reset/start after a latched batch; a new Producer per sweep pickling '
+    'exactly its argument), workers echo exactly the list check_exprs '
+    'accepted and take their base from the task (digest-checked cache), '
+    'and adoption is followed by a write of the adopted input after the '
+    'adoption.',
+    'Partial: schedules are not explored; multiprocessing semantics (one '
+    'result per task, event visibility) and the producer-thread race are '
+    'assumed/argued. Trusted: CPython ast, /verif/sa CFG and dataflow.',
+    'typestate over enumerated loop paths, dominance (must-facts), reaching '
+    'definitions, post-dominance for adopt->write',
+    'DESIGN.md §4 C05')
